@@ -85,7 +85,7 @@ pub fn profile(name: &str) -> Profile {
                 (K::Cas, 6), (K::CasWeak, 2), (K::Load, 8), (K::Counted, 10), (K::Downgrade, 6), (K::WeakDrop, 2),
                 (K::Upgrade, 12), (K::WeakSnap, 2), (K::WsUpgrade, 3), (K::Pin, 3), (K::Unpin, 6), (K::Churn, 10),
                 (K::Deref, 12), (K::NewMany, 2), (K::NewIter, 2), (K::IterNext, 3), (K::IterDrop, 1), (K::IterAbort, 1),
-                (K::Flush, 2), (K::LinkChain, 1), (K::WLoad, 1), (K::WStore, 1), (K::WeakMany, 3), (K::WeakClone, 1), (K::LocalCell, 4), (K::Convert, 3),
+                (K::Flush, 2), (K::LinkChain, 1), (K::WLoad, 1), (K::WStore, 1), (K::WeakMany, 3), (K::WeakClone, 1), (K::LocalCell, 4), (K::Convert, 3), (K::WithTag, 3),
             ]);
             p.stall_sites = vec![
                 S::INCS_ADD2, S::INCS_ADD2, S::INCS_ADD2, S::INCS_ADD1, S::DECS_LOAD, S::DECS_CAS, S::DECS_DEFER, S::TD_LOAD,
@@ -116,7 +116,7 @@ pub fn profile(name: &str) -> Profile {
                 (K::Downgrade, 12), (K::WeakMany, 2), (K::WeakClone, 6), (K::WeakDrop, 12), (K::Upgrade, 8),
                 (K::WeakSnap, 8), (K::SnapDowngrade, 4), (K::WsCounted, 10), (K::WsUpgrade, 6), (K::WStore, 8),
                 (K::WSwap, 6), (K::WCas, 6), (K::WCasTag, 2), (K::WLoad, 10), (K::Pin, 4), (K::Unpin, 5),
-                (K::Churn, 10), (K::Deref, 10), (K::Flush, 2), (K::LocalWCell, 5), (K::Convert, 4),
+                (K::Churn, 10), (K::Deref, 10), (K::Flush, 2), (K::LocalWCell, 5), (K::Convert, 4), (K::WithTag, 4),
             ]);
             p.stall_sites = vec![
                 S::DECW_SUB, S::DECW_DEFER, S::DECW_DEFER, S::TRY_DEALLOC_LOAD, S::TRY_DEALLOC_LOAD, S::INCW_LOAD,
@@ -242,7 +242,7 @@ pub fn profile(name: &str) -> Profile {
             };
             let weak_dropper = Role {
                 name: "weak-dropper",
-                weights: w(&[(K::WeakDrop, 10), (K::WStore, 7), (K::WSwap, 5), (K::Churn, 9), (K::DropRc, 4), (K::Store, 3), (K::Unpin, 3), (K::Flush, 2), (K::WLoad, 3), (K::WsCounted, 3)]),
+                weights: w(&[(K::WeakDrop, 10), (K::WStore, 7), (K::WSwap, 5), (K::Churn, 9), (K::DropRc, 4), (K::Store, 3), (K::Unpin, 3), (K::Flush, 2), (K::WLoad, 3), (K::WsCounted, 3), (K::WithTag, 3)]),
                 ops: (4, 14),
             };
             let weak_reader = Role {
